@@ -119,9 +119,17 @@ class ZipReader(AbstractReader):
             if (member.filename.endswith('.zip') or
                     member.filename.endswith('.ZIP')):
 
-                innerZipBlob = archive.read(member.filename)
+                try:
+                    innerZipBlob = archive.read(member.filename)
 
-                innerMembers = self._readZipDirectory(FileLike(innerZipBlob, member.filename))
+                    innerMembers = self._readZipDirectory(FileLike(innerZipBlob, member.filename))
+
+                except Exception:
+                    # a member that is named like an archive but cannot be read as
+                    # one hides nothing but itself
+                    debug.logger & debug.flagReader and debug.logger(
+                        'ZIP file %s member %s open failure: %s' % (self._name, member.filename, sys.exc_info()[1]))
+                    continue
 
                 for innerFilename, ref in innerMembers.items():
 
